@@ -451,10 +451,32 @@ def _clamp_prov(ctx, i, L):
     return simp(z3.If(i < 0, 0, z3.If(i > L, L, i)))
 
 
-def str_all(ctx, v, pred):
-    """forall k < len(v): pred(code_k)   (pred: code term -> bool term)"""
+def str_key(v):
+    """syntactic identity of a string value (for memoising derived terms)"""
+    if isinstance(v, str):
+        return ('lit', v)
+    out = []
+    for a in v.atoms:
+        if a[0] == 'lit':
+            out.append(('lit', a[1]))
+        elif a[0] == 'sl':
+            out.append(('sl', a[1].arr.get_id(), str(simp(a[2])), str(simp(a[3]))))
+        else:
+            out.append(('ch', str(a[1])))
+    return tuple(out)
+
+
+def str_all(ctx, v, pred, memo=None):
+    """forall k < len(v): pred(code_k)   (pred: code term -> bool term).
+    With memo=<name>: the same string yields the identical term on a path."""
     if isinstance(v, str):
         return z_and(*[pred(ord(c)) for c in v])
+    if memo is not None and ctx is not None:
+        table = ctx.ghost.setdefault('str_all', {})
+        k = (memo, str_key(v))
+        if k not in table:
+            table[k] = str_all(ctx, v, pred)
+        return table[k]
     parts = []
     for a in v.atoms:
         if a[0] == 'lit':
@@ -463,7 +485,11 @@ def str_all(ctx, v, pred):
             parts.append(pred(a[1]))
         else:
             base = a[1]
-            parts.append(forall_range(ctx, a[2], a[3], lambda k, base=base: pred(base.arr[k]), 'ck'))
+            L = atom_len(a)
+            if isinstance(L, int) and L <= 4:
+                parts.extend(pred(base.arr[zint(simp(zint(a[2]) + j))]) for j in range(L))
+            else:
+                parts.append(forall_range(ctx, a[2], a[3], lambda k, base=base: pred(base.arr[k]), 'ck'))
     return z_and(*parts)
 
 
@@ -483,6 +509,15 @@ class Obj(object):
 
     def __repr__(self):
         return '<Obj %s %s>' % (self.cls.name, self.tag)
+
+
+class LazyField(object):
+    """Field of a symbolic input object whose (possibly forking) construction is
+    postponed until the field is first read."""
+    __slots__ = ('fn',)
+
+    def __init__(self, fn):
+        self.fn = fn
 
 
 class PyList(object):
